@@ -7,6 +7,7 @@ import (
 	"go/token"
 	"go/types"
 	"math"
+	"os"
 	"sort"
 	"strings"
 
@@ -33,6 +34,7 @@ type Result struct {
 	Labels   int // label pairs compared
 	Pairs    map[string]bool // callee pairs assumed (each is its own obligation)
 	Notes    []string
+	Tails    int // Available()-guarded tails evaluated (format-defined older/shorter messages)
 }
 
 func (r *Result) OK() bool { return len(r.Failures) == 0 }
@@ -190,6 +192,8 @@ type Matcher struct {
 	splices map[Node][]Node
 	frames  map[string]*frame
 	primCalls map[*Prim]*Call
+	curW       Node // writer head while a reader condition is evaluated (for Available())
+	Tails      int
 	rootNonNil []string
 	written   map[string]bool
 	fieldCount map[string]string // writer: size key -> field label assigned from it (recv.RecordCount = len(items))
@@ -493,7 +497,9 @@ func (m *Matcher) run(st state) {
 			m.fail("mismatch", w, r, wfr, rfr, "reader reaches panic (rejects) on an input the writer can produce; writer is at %s", describe(m.X, w))
 			return
 		case *If:
+			m.curW = w
 			m.branch(st, v, rc, false)
+			m.curW = nil
 			return
 		case *Prim:
 			if v.Kind == "DecimalLen" {
@@ -1376,6 +1382,9 @@ func (m *Matcher) branch(st state, n *If, c *cont, writer bool) {
 			continue
 		}
 		e := p.e
+		if writer && len(p.drops) > 0 {
+			m.checkOmission(p.e, fr, n, t == triTrue)
+		}
 		if len(p.drops) > 0 {
 			e = e.clone()
 			for _, sp := range p.drops {
@@ -1384,6 +1393,141 @@ func (m *Matcher) branch(st state, n *If, c *cont, writer bool) {
 		}
 		take(e, t == triTrue)
 	}
+}
+
+// checkOmission: a data-dependent writer branch whose condition mentions field F and whose taken arm
+// omits F while the other arm emits it must imply that F has its zero value (the reader leaves F at
+// its default on that path): otherwise a non-default F is silently dropped.
+func (m *Matcher) checkOmission(e *env, fr *frame, n *If, then bool) {
+	taken, other := n.Else, n.Then
+	if then {
+		taken, other = n.Then, n.Else
+	}
+	if hasOpaqueEmit(taken) {
+		return // the taken arm emits bytes produced elsewhere (labels unknown): not decided here
+	}
+	in := map[string]bool{}
+	collectLabels(m, fr, taken, in)
+	out := map[string]bool{}
+	collectLabels(m, fr, other, out)
+	var conds []ast.Expr
+	if n.Cond != nil {
+		conds = append(conds, n.Cond)
+	} else if n.Case != nil {
+		if n.Case.Tag != nil {
+			conds = append(conds, n.Case.Tag)
+		}
+		conds = append(conds, n.Case.Vals...)
+	}
+	mentioned := map[string]bool{}
+	for _, c := range conds {
+		ast.Inspect(c, func(x ast.Node) bool {
+			if sel, ok := x.(*ast.SelectorExpr); ok {
+				if s, ok := m.X.canonF(fr, sel, 0); ok && isFieldLabel(s) {
+					mentioned[s] = true
+				}
+			}
+			return true
+		})
+	}
+	for f := range mentioned {
+		if !labelSetHas(out, f) || labelSetHas(in, f) {
+			continue
+		}
+		if m.impliedZero(e, f) {
+			continue
+		}
+		if os.Getenv("WIRE_DEBUG") != "" {
+			fmt.Fprintf(os.Stderr, "omission %s then=%v iv=%v atoms=%v\n", f, then, e.iv, e.atoms)
+		}
+		m.fail("omission", n, nil, fr, nil, "field %s is emitted only on one side of this branch, and on the side that omits it the branch condition does not imply it is zero/empty: a non-default value is silently not written", f)
+	}
+}
+
+func hasOpaqueEmit(ns []Node) bool {
+	for _, n := range ns {
+		switch v := n.(type) {
+		case *Call:
+			if v.StreamArg == -3 {
+				return true
+			}
+		case *Nested:
+			if hasOpaqueEmit(v.Body) {
+				return true
+			}
+		case *If:
+			if hasOpaqueEmit(v.Then) || hasOpaqueEmit(v.Else) {
+				return true
+			}
+		case *Loop:
+			if hasOpaqueEmit(v.Body) {
+				return true
+			}
+		case *Prim:
+			if v.Kind == "Bytes" && v.Label == "" {
+				return true
+			}
+		}
+	}
+	return false
+}
+
+func labelSetHas(set map[string]bool, f string) bool {
+	for l := range set {
+		if l == f || strings.HasPrefix(l, f+".") || l == "size:"+f || strings.HasPrefix(l, "size:"+f+".") {
+			return true
+		}
+	}
+	return false
+}
+
+func collectLabels(m *Matcher, fr *frame, ns []Node, into map[string]bool) {
+	for _, n := range ns {
+		switch v := n.(type) {
+		case *Prim:
+			if l := m.wlabelOf(fr, v); l != "" {
+				into[l] = true
+			}
+		case *Call:
+			if v.Label != "" {
+				into[m.relabel(fr, v.Label)] = true
+			}
+		case *If:
+			collectLabels(m, fr, v.Then, into)
+			collectLabels(m, fr, v.Else, into)
+		case *Loop:
+			collectLabels(m, fr, v.Body, into)
+			if k := m.loopKeyW(fr, v); k != "" {
+				into[k] = true
+			}
+		case *Nested:
+			collectLabels(m, fr, v.Body, into)
+		}
+	}
+}
+
+func (m *Matcher) impliedZero(e *env, f string) bool {
+	for _, k := range []string{f, "nil?" + f, "size:" + f} {
+		if iv, ok := e.iv[k]; ok && isZero(iv) {
+			return true
+		}
+	}
+	for k, iv := range e.iv {
+		if isZero(iv) && strings.HasPrefix(k, "size:"+f+".") {
+			return true // size of the backing collection of f (delegating Size())
+		}
+	}
+	// (A|B)==0 implies every operand is zero
+	for k, iv := range e.iv {
+		if isZero(iv) && strings.HasPrefix(k, "(") && strings.Contains(k, "|") {
+			for _, part := range strings.Split(strings.Trim(k, "()"), "|") {
+				if strings.Trim(part, "()") == f {
+					return true
+				}
+			}
+		}
+	}
+	return false
 }
 
 // forget undoes a refinement when nothing else can observe it.
@@ -1420,6 +1564,9 @@ func (m *Matcher) assume(e *env, sp *split, truth bool) {
 		iv, ok := e.iv[sp.key]
 		if !ok {
 			iv = interval{math.MinInt64, math.MaxInt64}
+			if strings.HasPrefix(sp.key, "size:") || strings.HasPrefix(sp.key, "nil?") {
+				iv.lo = 0
+			}
 		}
 		niv, nex := refine(iv, e.excl[sp.key], sp.op, sp.c, truth)
 		e.iv[sp.key] = niv
@@ -1760,6 +1907,21 @@ func (m *Matcher) resolveTerm(e *env, fr *frame, x ast.Expr, writer bool) (term,
 	}
 	switch v := x.(type) {
 	case *ast.CallExpr:
+		if sel, ok := v.Fun.(*ast.SelectorExpr); ok && sel.Sel.Name == "Available" && !writer {
+			if tv, ok := fr.ctx.Info.Types[sel.X]; ok && m.X.IsIn(tv.Type) {
+				// bytes left in the (sub)stream: none iff the writer has nothing more to emit into it
+				m.Res.Tails++
+				switch wn := m.curW.(type) {
+				case nil:
+					return term{isConst: true, c: 0}, true
+				case *marker:
+					if wn.kind == "endnested" {
+						return term{isConst: true, c: 0}, true
+					}
+				}
+				return term{isConst: true, c: 1 << 20}, true
+			}
+		}
 		if av, ok := e.rbind[v]; ok {
 			if av.wlabel != "" && !av.decTag {
 				return term{key: av.wlabel}, true
